@@ -15,7 +15,7 @@ import json
 import os
 import sys
 
-from common import (VERIF, Build, MachineryError, Verdict, make_cfg, run_children,
+from common import (one_case, VERIF, Build, MachineryError, Verdict, make_cfg, run_children,
                     run_tlc, shard, tla_bool, NCPU)
 
 INVARIANTS = ['TypeOK', 'Agreement', 'LogWithinContract', 'NoLaterStep',
@@ -126,7 +126,8 @@ def main(pid, tier):
             v.notes['executions'] = v.notes.get('executions', 0) + \
                 r['executions']
             for m in r['mismatches']:
-                v.violation(sig(pid, m), m)
+                v.violation(sig(pid, m), m, one_case('replay_adapt.py', impl,
+                                                     job, m))
         v.cov['traces_validated_against_impl'] = replayed
         v.cov['exhaustive'] = replayed == 2 * len(cases)
         step = max(1, len(cases) // 5)
